@@ -1,6 +1,7 @@
 import GitSizer.Driver.Counts
 import GitSizer.Driver.Human
 import GitSizer.Driver.Parsers
+import GitSizer.Driver.Config
 /-! `gsmodel`: reads case lines (engine TAB id TAB input… TAB => TAB observed…) on stdin and
     prints one verdict line per case: id TAB verdict… -/
 open GitSizer.Driver
@@ -10,6 +11,8 @@ def engineOf (name : String) : Option Engine :=
   | "counts" => some countsEngine
   | "human" => some humanEngine
   | "parsers" => some parsersEngine
+  | "config" => some configEngine
+  | "confige2e" => some configE2EEngine
   | _ => none
 
 def splitCase (fields : List String) : List String × List String :=
